@@ -122,7 +122,8 @@ class P11(histprop.HistProp):
         composite = ("_removedirall_", "_createdirall_", "_copyfile_", "_movefile_", "_copydir_", "_movedir_")
         # every composite on every kind of target (absent, below a file at two depths, wrong types), every backend
         mx = [c for c in hist.matrix_cases("c11", ["mem", "phys", "alt_phys", "ovl_mm", "ovl_pp"]) if any(k in c.name for k in composite)]
-        return list(super().corpus()) + mx + hist.size_cases("c11", ["mem", "phys", "alt_phys", "ovl_mm", "ovl_mp"])
+        return list(super().corpus()) + mx + hist.size_cases("c11", ["mem", "phys", "alt_phys", "ovl_mm", "ovl_mp"]) + \
+            hist.deep_tree_cases("c11", ["mem", "phys", "alt_phys", "ovl_mm", "ovl_mp"])
 
 
 P = P11("C11", CONFIGS, typed=True, mix=MIX, quick_cases=6, thorough_cases=80, nops=(12, 24), use_spec=True,
